@@ -27,32 +27,6 @@ Proof.
   destruct io_set, pend_set; reflexivity.
 Qed.
 
-Definition do_close' (s : ep) : ep :=
-  s <| ka_due := None |> <| idle_due := None |>
-    <| io_set := if closed s then io_set s else false |>
-    <| n_io := if closed s then n_io s else if io_set s then pred (n_io s) else n_io s |>
-    <| closed := true |>
-    <| trace := if closed s then trace s else trace s ++ [EClosed] |>.
-
-Lemma do_close_pr s : do_close s = do_close' s.
-Proof. destruct s; unfold do_close, do_close', emit; cbn; destruct closed, io_set; reflexivity. Qed.
-
-Definition set_state' (st : N) (s : ep) : ep :=
-  s <| state := st |>
-    <| trace := if state s =? st then trace s else trace s ++ [ESig SigState [PStr st]] |>.
-
-Lemma set_state_pr st s : set_state st s = set_state' st s.
-Proof.
-  destruct s; unfold set_state, set_state', emit; cbn.
-  destruct (N.eqb_spec state st) as [->|]; reflexivity.
-Qed.
-
-Definition pq_trigger' (s : ep) : ep :=
-  s <| pq_set := true |> <| n_pq := if pq_set s then n_pq s else S (n_pq s) |>.
-
-Lemma pq_trigger_pr s : pq_trigger s = pq_trigger' s.
-Proof. destruct s; unfold pq_trigger, pq_trigger'; cbn; destruct pq_set; reflexivity. Qed.
-
 Definition fin_term_ev (it : N * bytes) : event :=
   ESig SigSendFinished [PStrNum (fst it); PInt 0; PStr RES_TERMINATING].
 
@@ -77,6 +51,40 @@ Proof.
     - cbn [fold_left map]. rewrite IH. destruct s0; unfold emit; cbn. rewrite <- app_assoc. reflexivity. }
   rewrite G. destruct s; reflexivity.
 Qed.
+
+(** [ContactHandler.close]: a close that actually happens first reports the
+    transfers that were never started (as [flush_pend_start]). *)
+Definition do_close' (s : ep) : ep :=
+  s <| ka_due := None |> <| idle_due := None |>
+    <| pend_start := if closed s then pend_start s else [] |>
+    <| tx_map := if closed s then tx_map s else del_all (pend_start s) (tx_map s) |>
+    <| io_set := if closed s then io_set s else false |>
+    <| n_io := if closed s then n_io s else if io_set s then pred (n_io s) else n_io s |>
+    <| closed := true |>
+    <| trace := if closed s then trace s
+                else (trace s ++ map fin_term_ev (pend_start s)) ++ [EClosed] |>.
+
+Lemma do_close_pr s : do_close s = do_close' s.
+Proof.
+  unfold do_close. cbv zeta. rewrite flush_pend_start_pr.
+  destruct s; unfold do_close', flush_pend_start', emit; cbn; destruct closed, io_set; reflexivity.
+Qed.
+
+Definition set_state' (st : N) (s : ep) : ep :=
+  s <| state := st |>
+    <| trace := if state s =? st then trace s else trace s ++ [ESig SigState [PStr st]] |>.
+
+Lemma set_state_pr st s : set_state st s = set_state' st s.
+Proof.
+  destruct s; unfold set_state, set_state', emit; cbn.
+  destruct (N.eqb_spec state st) as [->|]; reflexivity.
+Qed.
+
+Definition pq_trigger' (s : ep) : ep :=
+  s <| pq_set := true |> <| n_pq := if pq_set s then n_pq s else S (n_pq s) |>.
+
+Lemma pq_trigger_pr s : pq_trigger s = pq_trigger' s.
+Proof. destruct s; unfold pq_trigger, pq_trigger'; cbn; destruct pq_set; reflexivity. Qed.
 
 (** [check_sess_term]: closes exactly when terminating and idle.  The condition
     is written as a function of field *values* ([cst6]): in the canonical forms
@@ -110,8 +118,14 @@ Proof.
   unfold check_sess_term, check_sess_term'. rewrite is_sess_idle_eq.
   change (in_term s && idle6 (rx_buf s) (msg_tx s) (rx_tmp s) (tx_tmp s) (pend_start s) (pend_ack s))
     with (cst s).
-  destruct (cst s).
-  - rewrite do_close_pr. reflexivity.
+  destruct (cst s) eqn:E.
+  - (* terminating and idle: nothing is left in [pend_start], the flush is void *)
+    rewrite do_close_pr.
+    assert (Hp : pend_start s = []).
+    { unfold cst6, idle6, is_nil in E. destruct (pend_start s); [reflexivity|].
+      rewrite !andb_false_r in E. cbn in E. rewrite ?andb_false_r in E. discriminate E. }
+    destruct s; cbn in Hp; subst; unfold do_close', del_all; cbn; rewrite app_nil_r;
+      destruct closed; reflexivity.
   - destruct s; reflexivity.
 Qed.
 
